@@ -109,9 +109,17 @@ def resolve_amount(sim, m, spec, token=None):
     elif kind == "helper_max_withdraw":
         if tok not in m.supply_keys:
             return "skip"
-        base = m.get_max_withdraw_amount(tok)
+        try:
+            base = m.get_max_withdraw_amount(tok)
+        except Exception:  # the helper itself failed (e.g. a collateral token with LT = 0): nothing to request
+            sim.count("probe:helper_raised_in_resolver")
+            return "skip"
     elif kind == "helper_max_borrow":
-        base = m.get_max_borrow_amount(tok)
+        try:
+            base = m.get_max_borrow_amount(tok)
+        except Exception:  # no collateral: inf * 0 inside the helper
+            sim.count("probe:helper_raised_in_resolver")
+            return "skip"
     elif kind in ("ref_max_withdraw", "ref_max_borrow"):
         from ..ref import aave as RA
 
